@@ -77,7 +77,7 @@ def strategy_(draw, tier):
     if draw(st.integers(0, 9)) == 0:
         reply = ""
     fn_replies = [",".join(draw(st.lists(TOK, min_size=1, max_size=4))) for _ in range(6)]
-    if draw(st.integers(0, 59)) == 0:
+    if draw(st.sampled_from([False] * 29 + [True])):
         # a LONG list and one reply that denotes all of it ("huge ranges" are part of the statement)
         nmany = draw(st.sampled_from([340, 400, 520]))
         ents = [dict(tdir=tds[0][0], base=tds[0][1], orig=base_dir + "/many/m%04d" % i, date=100 + i,
